@@ -59,6 +59,9 @@ def unit_rac(eng):
         (["1: nop\nbr 1\n", "1: nop\nbr 1\n", "1: nop\nbr 1\n"], "ok", "a000fe01a000fe01a000fe01"),
         (["a: nop\n", "br 1\nb: nop\n1: nop\n"], "fail", None),
         (["a: 1: nop\n.repeat 2 { nop }\nbr 1\n"], "ok", "a000a000a000fc01"),
+        # '.extern all' exports ordinary symbols only: numeric local labels stay reusable after it
+        ([".extern all\na: 1: nop\nbr 1\nb: 1: nop\nbr 1\n"], "ok", "a000fe01a000fe01"),
+        ([".extern all\na: 1: nop\n", ".extern all\nb: 1: nop\nbr 1\n"], "ok", "a000a000fe01"),
     ]
     jobs = [{"kind": "asm", "sources": s} for s, _, _ in cases]
     res = driver.native(jobs, driver.tree_root())
